@@ -72,6 +72,18 @@ PROPS = {
                       "bridge re-deployment (new compass id) while a batch is open is outside the property's quantifier and is not generated"],
         assumptions=[],
     ),
+    "C11": dict(
+        lean_modules=["PalomaModel.Props.C11"], gen=["Claims.lean"],
+        harness_test="TestC11",
+        n_quick=1500, n_thorough=20000, thorough_seeds=8,
+        spec_ops=[],
+        rule="random claims of the three submittable claim types (uint64 fields over edge values, amounts nil/0/negative/2^256-1, strings incl. '/', ',', '=', NUL, non-ASCII, eth and bech32 addresses); "
+             "per claim 18 single-field mutations (every effect-bearing field) and re-splits of '/'-joined adjacent free-form fields; real ClaimHash vs the SHA-256 of the model's pre-image built from the generated format table; "
+             "distinct = distinct claim text; all cases non-trivial",
+        trusted_base=["tmhash (SHA-256) collision freeness is a hypothesis of same_key_same_fields; the executable Lean SHA-256 is validated by the correspondence and test vectors",
+                      "the extractor's reading of ClaimHash (format literal, argument list), of the claim structs and of the handlers' `claim.X` selectors (Gen/Claims.lean, printed in evidence)"],
+        assumptions=["chain_reference_id is bound by the attestation key's store prefix, not by the hash"],
+    ),
 }
 
 LEVEL_TEXT = ("Lean 4 theorems (all inputs / histories / fault points, no bounds) about an executable model of the code; the model is tied to the Go code on "
